@@ -2,4 +2,6 @@ import Driver.Loop
 import Driver.Ops.C11
 /- pvdrv-C11: model driver for property C11.  Import further Driver.Ops.* modules here if this
    property's harness needs operations defined for another property. -/
-def main : IO Unit := Driver.run (Driver.C11.ops)
+/- C06's operations (apply.model, name.spec, …) are linked too: the command-line stream composes the
+   sample filters with prune_from (C11's own ops come first, so its `views`/`valid` win). -/
+def main : IO Unit := Driver.run (Driver.C11.ops ++ Driver.C06.ops)
